@@ -388,11 +388,96 @@ def gen_actval(repo):
         for m in ("__len__", "__iter__", "__contains__", "__getitem__"):
             if m in _methods(classes[c]):
                 raise Untranslatable("%s defines %s (the model has TypeError there)" % (c, m))
+    # __repr__(self): strargs = tuple(<a> if arg == sys.maxsize else repr(arg) for arg in self.args); return f"{type(self).__name__}({', '.join(strargs)})"
+    rp = base.get("__repr__")
+    rb = _strip_doc(rp.body) if rp is not None else []
+    if rp is None or [a.arg for a in rp.args.args] != ["self"] or len(rb) != 2 or not isinstance(rb[0], ast.Assign) or not isinstance(rb[1], ast.Return):
+        raise Untranslatable("CheckpointAction.__repr__ shape")
+    asg = rb[0]
+    if len(asg.targets) != 1 or not isinstance(asg.targets[0], ast.Name):
+        raise Untranslatable("__repr__ assignment")
+    tname = asg.targets[0].id
+    v = asg.value
+    if not (isinstance(v, ast.Call) and isinstance(v.func, ast.Name) and v.func.id in ("tuple", "list") and len(v.args) == 1 and not v.keywords
+            and isinstance(v.args[0], (ast.GeneratorExp, ast.ListComp)) and len(v.args[0].generators) == 1):
+        raise Untranslatable("__repr__: strargs is not tuple(<generator>)")
+    ge = v.args[0]
+    comp = ge.generators[0]
+    if not (isinstance(comp.target, ast.Name) and is_args_of(comp.iter, "self") and not comp.ifs and not comp.is_async):
+        raise Untranslatable("__repr__: generator does not run over self.args")
+    av = comp.target.id
+
+    def sexpr(e):
+        """string-valued expression over the generator variable"""
+        if isinstance(e, ast.Constant) and isinstance(e.value, str):
+            if any(ch in e.value for ch in '"\\') or not e.value.isprintable():
+                raise Untranslatable("string constant")
+            return '"%s"' % e.value
+        if isinstance(e, ast.IfExp):
+            return "(if %s then %s else %s)" % (bexpr(e.test), sexpr(e.body), sexpr(e.orelse))
+        if isinstance(e, ast.Call) and isinstance(e.func, ast.Name) and e.func.id == "repr" and len(e.args) == 1 and isinstance(e.args[0], ast.Name) and e.args[0].id == av and not e.keywords:
+            return "py_repr %s" % av
+        raise Untranslatable("__repr__ element " + ast.dump(e)[:80])
+
+    def bexpr(e):
+        def is_maxsize(x):
+            return isinstance(x, ast.Attribute) and x.attr == "maxsize" and isinstance(x.value, ast.Name) and x.value.id == "sys"
+        if isinstance(e, ast.Compare) and len(e.ops) == 1 and isinstance(e.ops[0], ast.Eq) and isinstance(e.left, ast.Name) and e.left.id == av and is_maxsize(e.comparators[0]):
+            return "arg_eq_maxsize %s" % av
+        raise Untranslatable("__repr__ test " + ast.dump(e)[:80])
+    elt = sexpr(ge.elt)
+    js = rb[1].value
+    if not isinstance(js, ast.JoinedStr):
+        raise Untranslatable("__repr__ does not return an f-string")
+    parts = []
+    for piece in js.values:
+        if isinstance(piece, ast.Constant) and isinstance(piece.value, str):
+            if any(ch in piece.value for ch in '"\\') or not piece.value.isprintable():
+                raise Untranslatable("f-string constant")
+            parts.append('"%s"' % piece.value)
+        elif isinstance(piece, ast.FormattedValue) and piece.conversion == -1 and piece.format_spec is None:
+            x = piece.value
+            if isinstance(x, ast.Attribute) and x.attr == "__name__" and is_type_of(x.value, "self"):
+                parts.append("type_name self")
+            elif (isinstance(x, ast.Call) and isinstance(x.func, ast.Attribute) and x.func.attr == "join" and isinstance(x.func.value, ast.Constant)
+                  and isinstance(x.func.value.value, str) and len(x.args) == 1 and isinstance(x.args[0], ast.Name) and x.args[0].id == tname and not x.keywords):
+                parts.append('py_join "%s" %s' % (x.func.value.value, tname))
+            else:
+                raise Untranslatable("f-string field " + ast.dump(x)[:80])
+        else:
+            raise Untranslatable("f-string piece")
+    # StorageType.__repr__: type(self).__name__ + "." + self.name ; members RAM DISK WORK NONE
+    stc = classes.get("StorageType")
+    if stc is None:
+        raise Untranslatable("class StorageType not found")
+    members = [t.id for n in stc.body if isinstance(n, ast.Assign) for t in n.targets if isinstance(t, ast.Name)]
+    if sorted(members) != ["DISK", "NONE", "RAM", "WORK"]:
+        raise Untranslatable("StorageType members %s" % members)
+    sr = _methods(stc).get("__repr__")
+    if sr is None or [a.arg for a in sr.args.args] != ["self"]:
+        raise Untranslatable("StorageType.__repr__")
+
+    def stexpr(e):
+        if isinstance(e, ast.BinOp) and isinstance(e.op, ast.Add):
+            return "(%s ++ %s)" % (stexpr(e.left), stexpr(e.right))
+        if isinstance(e, ast.Constant) and isinstance(e.value, str) and e.value.isprintable() and '"' not in e.value:
+            return '"%s"' % e.value
+        if isinstance(e, ast.Attribute) and e.attr == "__name__" and is_type_of(e.value, "self"):
+            return '"StorageType"'
+        if isinstance(e, ast.Attribute) and e.attr == "name" and isinstance(e.value, ast.Name) and e.value.id == "self":
+            return "st_name self"
+        raise Untranslatable("StorageType.__repr__ expression " + ast.dump(e)[:80])
+    st_body = stexpr(_single_return(sr, "StorageType.__repr__"))
     out = ["(* GENERATED by harness/translate.py from checkpoint_schedules/schedule.py (CheckpointAction.__eq__; __len__, __iter__, __contains__ of Forward",
            "   and Reverse, attribute names resolved through the @property definitions) -- do not edit *)",
-           "From Coq Require Import ZArith Bool List.", "From CS Require Import Actions ActVal.", "Open Scope Z_scope.", "",
+           "From Coq Require Import ZArith Bool List String.", "From CS Require Import Actions ActVal.", "Import ListNotations.", "Open Scope Z_scope.", "",
            "Definition eq_gen (self other : action) : bool := same_kind self other && tuple_eqb (args self) (args other).",
-           "Lemma eq_gen_is_model : eq_gen = py_eq.", "Proof. reflexivity. Qed.", ""]
+           "Lemma eq_gen_is_model : eq_gen = py_eq.", "Proof. reflexivity. Qed.", "",
+           "Definition st_repr_gen (self : storage) : string := (%s)%%string." % st_body,
+           "Lemma st_repr_gen_is_model : forall s, st_repr_gen s = st_repr s.", "Proof. intros s; destruct s; reflexivity. Qed.",
+           "Definition repr_gen (self : action) : string :=", "  let %s := map (fun %s => %s%%string) (args self) in" % (tname, av, elt),
+           "  (%s)%%string." % " ++ ".join(parts),
+           "Lemma repr_gen_is_model : forall a, repr_gen a = act_repr a.", "Proof. intros a; destruct a; reflexivity. Qed.", ""]
     for c, ctor, nz in (("Forward", "Forward a0 a1 a2 a3 a4", "a0 a1 a2 a3 a4"), ("Reverse", "Reverse a0 a1 a2", "a0 a1 a2")):
         order = _init_order(classes[c])
         props = _props(classes[c], len(order))
